@@ -1,4 +1,5 @@
 import Verif.Model.Trace
+import Verif.Proofs.FlattenPipeline
 
 /-!
 # C10 — the analyzer handed to Flatten stays in sync with the document
@@ -55,5 +56,15 @@ example :
     let s0 : St Nat Nat := { doc := 0, idx := 0, dirty := false }
     (run analyze s0 (phase [fun d => d + 1] false)).idx ≠ analyze (run analyze s0 (phase [fun d => d + 1] false)).doc := by
   decide
+
+/-- C10 on the phase model of Flatten itself (`Flatten.flattenLocal`, where each phase works on the
+    index of the last `reload()` exactly as the code does): when the pipeline returns normally, the
+    index held by the caller's `Spec` is the analysis of the document it returns — for every
+    document, option set, external function and number of loop iterations.  The model is tied to
+    flatten.go phase by phase by the `phases` correspondence stream. -/
+theorem pipeline_in_sync (fc : Facts) (x : Flatten.Ext) (o : Flatten.Opts) (fuel : Nat) (s s' : Flatten.St)
+    (h : Flatten.flattenLocal fc x o fuel s = .ok s') :
+    s'.idx = Analyzer.analyze fc s'.doc :=
+  Proofs.FlattenPipeline.flattenLocal_inSync fc x o fuel s s' h
 
 end C10
